@@ -36,6 +36,7 @@ inductive After
   | fin                  -- release: giveLocks returns, the command is done
   | retry (left : Nat)   -- withdrawal of an exclusive request with `left + 1` attempts left: sleep, mkdir again
   | refuse               -- withdrawal of a shared request, or of the last attempt: RuntimeError
+  | die                  -- release by the signal handler (SIGINT / SIGTERM in the command body): then the process dies
   deriving DecidableEq, Repr, Hashable
 
 /-- program counter = the next file-system call of the process -/
@@ -54,6 +55,7 @@ inductive PC
   | done                     -- giveLocks returned
   | failedAcq (e : Err)      -- takeLocks raised
   | failedRel (e : Err)      -- giveLocks raised
+  | killed                   -- the signal handler has given the locks up and the process has died of the signal
   deriving DecidableEq, Repr, Hashable
 
 structure St where
@@ -76,6 +78,7 @@ def afterPC : After → PC
   | .fin => .done
   | .retry n => .mkdir n
   | .refuse => .failedAcq .runtime
+  | .die => .killed
 
 /-- the listing the requester looks at: "*" for an exclusive request, "exclusive*" for a shared one -/
 def lookList (k : Kind) (fs : List (Kind × Pid)) : List (Kind × Pid) :=
@@ -131,6 +134,7 @@ def step (s : St) (i : Pid) : St :=
   | .done => s
   | .failedAcq _ => s
   | .failedRel _ => s
+  | .killed => s
 
 def run (s : St) (sched : List Pid) : St := sched.foldl step s
 
@@ -142,6 +146,36 @@ def init (kind : Pid → Kind) (lp : Pid → Option Pid) (tries : Pid → Nat) :
 @[simp] theorem run_cons (s : St) (i : Pid) (r : List Pid) : run s (i :: r) = run (step s i) r := rfl
 theorem run_append (s : St) (a b : List Pid) : run s (a ++ b) = run (run s a) b := by
   simp [run, List.foldl_append]
+
+/-! ### Signals
+
+`takeLocks` installs a handler for SIGINT and SIGTERM when it returns: the handler gives the locks up
+(`giveLocks(locks)`) and — with our repair — lets the process die of the signal (the pinned handler returned, and the
+command carried on without its locks: `C09_signal_handler_witness_Pinned`).  Modelled: a signal delivered while the
+command body runs.  Not modelled: signals during `takeLocks` (no handler yet: SIGINT unwinds through `takeLocks`,
+which gives up what it has taken; SIGTERM kills the process where it stands) and during `giveLocks`. -/
+
+/-- SIGINT / SIGTERM delivered to process `i`: in its command body the handler starts the release, after which the
+process dies; elsewhere not modelled (no effect) -/
+def interrupt (s : St) (i : Pid) : St :=
+  match s.pc i with
+  | .hold => setPC s i (.isdir .die)
+  | _ => s
+
+/-- an event of a schedule: the next file-system call of a process, or a signal delivered to it -/
+inductive Ev
+  | call (i : Pid)
+  | intr (i : Pid)
+  deriving DecidableEq, Repr
+
+def stepE (s : St) : Ev → St
+  | .call i => step s i
+  | .intr i => interrupt s i
+
+def runE (s : St) (evs : List Ev) : St := evs.foldl stepE s
+
+@[simp] theorem runE_nil (s : St) : runE s [] = s := rfl
+@[simp] theorem runE_cons (s : St) (e : Ev) (r : List Ev) : runE s (e :: r) = runE (stepE s e) r := rfl
 
 /-! ### What a step looks like from outside (compared with the real calls by the correspondence) -/
 
@@ -178,6 +212,7 @@ def obs (s : St) (i : Pid) : Call × Res :=
   | .done => (.none, .nothing)
   | .failedAcq _ => (.none, .nothing)
   | .failedRel _ => (.none, .nothing)
+  | .killed => (.none, .nothing)
 
 /-! ### The property -/
 
